@@ -234,7 +234,17 @@ fn apply<const B: usize, const L: usize>(op: u64, a: Uint<B, L>, b: Uint<B, L>, 
         88 => ("approx_pow2", o(Uint::<B, L>::approx_pow2((k % (B as u64 + 8)) as f64 + 0.3))),
         89 => ("try_from(u128)", Uint::<B, L>::try_from(u128::from(k) * u128::from(k)).ok().into_iter().collect()),
         90 => ("try_from(f64)", Uint::<B, L>::try_from((k % 100000) as f64 + 0.5).ok().into_iter().collect()),
-        _ => ("copy", vec![a]),
+        // constructors documented to reject out-of-range limbs: whatever they return must be canonical
+        // (a panic is the documented rejection and yields no value)
+        _ => ("from_limbs(raw top limb)", {
+            let mut l = *a.as_limbs();
+            if L > 0 {
+                l[L - 1] = k;
+            }
+            let mut v = vec![Uint::from_limbs(l)];
+            v.extend(Uint::checked_from_limbs_slice(&l));
+            v
+        }),
     }
 }
 
